@@ -2,6 +2,7 @@
    (the place of the new shader element was wrong before /repo 51e06da: found by the C04 check, see DESIGN §4). -/
 import Pyc.Proofs.Schema
 import Pyc.Props.C02
+import Pyc.Props.C04
 
 namespace Pyc.Props.C04
 open Pyc.Schema Pyc.Generated.SchemaTable RegularExpression
@@ -153,6 +154,88 @@ theorem instance_material_valid (name : α → String) (wanted B I E : List α)
   have := mem_mul (mem_mul mB mW) mE
   simpa [cm_technique_common_instance_material, List.map_append, List.append_assoc] using this
 
+
+/-! ### `<mesh>` through Geometry.save: two reconciliations -/
+
+/-- `Geometry.save` ends with two reconciliations of `<mesh>`: the sources in front of `<vertices>`, then the primitives in
+    front of the first `<extra>`.  For a loaded mesh `S ++ [v] ++ P ++ X` (sources, vertices, primitives, extras) and ANY current
+    source and primitive lists `S'`, `P'` (any edit history) the children come out as `S' ++ [v] ++ P' ++ X`. -/
+theorem mesh_children_after_save (name : α → String) (S S' P P' X : List α) (v : α)
+    (hS : ∀ c ∈ S, name c = "source") (hS' : ∀ c ∈ S', name c = "source") (hv : name v = "vertices")
+    (hP : ∀ c ∈ P, name c ∉ ["source", "vertices", "extra"]) (hP' : ∀ c ∈ P', name c ∉ ["source", "vertices", "extra"])
+    (hX : ∀ c ∈ X, name c = "extra") :
+    syncChildren (fun c => !(["source", "vertices", "extra"].contains (name c))) P'
+      (syncChildren (fun c => name c == "source") S' (S ++ [v] ++ P ++ X) (some v)) X.head?
+      = S' ++ [v] ++ P' ++ X := by
+  have nS' : ∀ c, name c ≠ "source" → c ∉ S' := fun c hc hm => hc (hS' c hm)
+  have nP' : ∀ c, name c ∈ ["source", "vertices", "extra"] → c ∉ P' := fun c hc hm => hP' c hm hc
+  -- first reconciliation: B = [], I = S, E = v :: P ++ X
+  have h1 : syncChildren (fun c => name c == "source") S' (S ++ [v] ++ P ++ X) (some v) = S' ++ ([v] ++ P ++ X) := by
+    have := Pyc.Props.C02.sync_block (fun c => name c == "source") S' [] S ([v] ++ P ++ X)
+      (by simp) (fun c hc => by simp [isM, hS c hc])
+      (fun c hc => by
+        have hne : name c ≠ "source" := by
+          simp only [List.mem_append, List.mem_singleton] at hc
+          rcases hc with (rfl | hc) | hc
+          · rw [hv]; decide
+          · intro h; exact hP c hc (by simp [h])
+          · rw [hX c hc]; decide
+        have := nS' c hne
+        simp [isM, hne, this])
+      (by simp)
+    simpa [List.append_assoc] using this
+  rw [h1]
+  -- second one: B = S' ++ [v], I = P, E = X
+  have h2 := Pyc.Props.C02.sync_block (fun c => !(["source", "vertices", "extra"].contains (name c))) P' (S' ++ [v]) P X
+    (fun c hc => by
+      have hin : name c ∈ ["source", "vertices", "extra"] := by
+        simp only [List.mem_append, List.mem_singleton] at hc
+        rcases hc with hc | rfl
+        · simp [hS' c hc]
+        · simp [hv]
+      have := nP' c hin
+      simp [isM, hin, this])
+    (fun c hc => by
+      have := hP c hc
+      simp [isM, this])
+    (fun c hc => by
+      have hin : name c ∈ ["source", "vertices", "extra"] := by simp [hX c hc]
+      have := nP' c hin
+      simp [isM, hin, this])
+    (fun e he hmem => by
+      have hex : name e = "extra" := hX e (by cases X with
+        | nil => simp at he
+        | cons x xs => simp at he; subst he; simp)
+      simp only [List.mem_append, List.mem_singleton] at hmem
+      rcases hmem with hm | hm
+      · have := hS' e hm; rw [hex] at this; revert this; decide
+      · rw [hm, hv] at hex; revert hex; decide)
+  simpa [List.append_assoc] using h2
+
+/-- … so a mesh that keeps at least one source is schema-valid after the save, whatever was added, removed, replaced or reordered -/
+theorem mesh_valid_after_save (name : α → String) (S S' P P' X : List α) (v : α)
+    (hS : ∀ c ∈ S, name c = "source") (hS' : ∀ c ∈ S', name c = "source") (hv : name v = "vertices")
+    (hP : ∀ c ∈ P, name c ∉ ["source", "vertices", "extra"]) (hP' : ∀ c ∈ P', name c ∈ primitiveTags)
+    (hX : ∀ c ∈ X, name c = "extra") (hne : S' ≠ []) :
+    cm_geometry_mesh.rmatch
+      ((syncChildren (fun c => !(["source", "vertices", "extra"].contains (name c))) P'
+        (syncChildren (fun c => name c == "source") S' (S ++ [v] ++ P ++ X) (some v)) X.head?).map name) = true := by
+  have hP'' : ∀ c ∈ P', name c ∉ ["source", "vertices", "extra"] := by
+    intro c hc hin
+    have := hP' c hc
+    simp only [primitiveTags, List.mem_cons, List.mem_nil_iff, or_false] at this hin
+    rcases this with h | h | h | h | h | h | h <;> rw [h] at hin <;> simp at hin
+  rw [mesh_children_after_save name S S' P P' X v hS hS' hv hP hP'' hX]
+  have e : (S' ++ [v] ++ P' ++ X).map name = emitMesh S'.length (P'.map name) X.length := by
+    simp only [emitMesh, List.map_append, List.map_cons, List.map_nil, hv]
+    congr 1
+    · congr 1
+      congr 1
+      exact List.eq_replicate_iff.2 ⟨by simp, fun b hb => by obtain ⟨c, hc, rfl⟩ := List.mem_map.1 hb; exact hS' c hc⟩
+    · exact List.eq_replicate_iff.2 ⟨by simp, fun b hb => by obtain ⟨c, hc, rfl⟩ := List.mem_map.1 hb; exact hX c hc⟩
+  rw [e]
+  exact emit_mesh_valid S'.length (P'.map name) X.length (List.length_pos_of_ne_nil hne)
+    (fun p hp => by obtain ⟨c, hc, rfl⟩ := List.mem_map.1 hp; exact hP' c hc)
 end
 
 end Pyc.Props.C04
